@@ -6,6 +6,7 @@ import (
 	"fmt"
 	"os"
 	"path/filepath"
+	"regexp"
 	"sort"
 	"strconv"
 	"strings"
@@ -282,6 +283,12 @@ func report(prop, tier string, seed int, rr *RunResult) int {
 	sort.SliceStable(rr.Obls, func(i, j int) bool { return rr.Obls[i].Name < rr.Obls[j].Name })
 	canaries, canaryBad := 0, 0
 	sweepOpen, sweepNew := 0, 0
+	advProved := map[string]int{}
+	var advPending []*Obligation
+	lockedFam := map[string]int{}
+	for n := range locked {
+		lockedFam[oblFamily(n)]++
+	}
 	for _, o := range rr.Obls {
 		present[o.Name] = o
 		solverSecs += o.Secs
@@ -317,10 +324,22 @@ func report(prop, tier string, seed int, rr *RunResult) int {
 			// zero-annotation sweep: never discharged on the unchanged tree, not part of the claim
 			if o.Status == "proved" {
 				sweepNew++
+				advProved[oblFamily(o.Name)]++
 			} else {
 				sweepOpen++
 			}
 			continue
+		}
+		if o.Advisory {
+			// an advisory obligation is claimed through the ledger, and ledger names carry occurrence ordinals: compare
+			// per family by COUNT (as many members proved now as were in the ledger), so that reordering two sites of
+			// which one never discharged is not an alarm
+			if o.Status == "proved" {
+				advProved[oblFamily(o.Name)]++
+			} else {
+				advPending = append(advPending, o)
+				continue
+			}
 		}
 		nObl++
 		switch o.Status {
@@ -345,9 +364,36 @@ func report(prop, tier string, seed int, rr *RunResult) int {
 		}
 	}
 	// locked obligations that disappeared
+	for _, o := range advPending {
+		fam := oblFamily(o.Name)
+		if advProved[fam] >= lockedFam[fam] {
+			sweepOpen++ // as many members of the family discharge as before: the failing one is a site that never did
+			continue
+		}
+		nObl++
+		violations++
+		if o.Status == "failed" {
+			emitViolation(e, prop, o, "counterexample")
+		} else {
+			emitViolation(e, prop, o, "undecided-but-discharged-before")
+		}
+	}
+	// A ledger obligation counts as gone only when its whole FAMILY is gone: names carry ordinals that shift under
+	// harmless edits (the n-th occurrence of an expression `#n`, the n-th return `@retN`, the n-th call of a callee
+	// `.N/`), so the comparison is made on the name with those ordinals removed.  An edit that moves, duplicates or
+	// merges sites keeps the family; deleting the last site of a kind, a contract clause, a loop or a function does not.
+	presentFam := map[string]bool{}
+	for n := range present {
+		presentFam[oblFamily(n)] = true
+	}
 	var missing []string
+	renamed := 0
 	for n := range locked {
 		if present[n] == nil {
+			if presentFam[oblFamily(n)] {
+				renamed++
+				continue
+			}
 			missing = append(missing, n)
 		}
 	}
@@ -385,6 +431,7 @@ func report(prop, tier string, seed int, rr *RunResult) int {
 		"vacuity_failures":         canaryBad,
 		"ledger_size":              len(locked),
 		"ledger_missing":           missing,
+		"ledger_renamed":           renamed,
 		"sweep_open_obligations":   sweepOpen,
 		"sweep_new_proved":         sweepNew,
 		"explanation":              "every obligation is generated from /repo's current source on this run (contracts in /repo/verif_contracts.go, tag verif) and discharged by an SMT solver, or — for frame:* obligations — by the syntactic effect pass over the typed call graph; see DESIGN.md",
@@ -501,3 +548,17 @@ func LockCmd(args []string) int {
 }
 
 func EffectsCmd(args []string) int { return 2 }
+
+var (
+	famOrd  = regexp.MustCompile(`#\d+$`)
+	famRet  = regexp.MustCompile(`@ret\d+`)
+	famCall = regexp.MustCompile(`\.\d+/`)
+)
+
+// oblFamily strips the occurrence, return and call ordinals from an obligation name.
+func oblFamily(n string) string {
+	n = famOrd.ReplaceAllString(n, "")
+	n = famRet.ReplaceAllString(n, "")
+	n = famCall.ReplaceAllString(n, "/")
+	return n
+}
